@@ -222,7 +222,9 @@ class Check:
             return []
         inp = "\n".join(json.dumps(c, separators=(",", ":")) for c in cases) + "\n"
         p = subprocess.run([DRIVER], input=inp, stdout=subprocess.PIPE, stderr=subprocess.PIPE, text=True, timeout=timeout)
-        lines = p.stdout.splitlines()
+        lines = p.stdout.split("\n")          # not splitlines(): a reply may echo U+0085 / U+2028 / U+001C inside a string
+        if lines and lines[-1] == "":
+            lines.pop()
         if p.returncode != 0 or len(lines) != len(cases):
             raise HarnessError("driver failed rc=%s, %d replies for %d cases: %s" % (p.returncode, len(lines), len(cases), p.stderr[-500:]))
         out = [json.loads(l) for l in lines]
